@@ -83,14 +83,20 @@ def leaf(rnd, d, D, allow=("normal_scalar", "normal_vec", "normal_full", "laplac
         obj = D.Himmelblau(temperature=T)
         return Node(obj, f"(DHimmel {q(T)})", 2, [-4.0] * 2, [4.0] * 2, f"Himmelblau(T={T})")
     mu = [dy(rnd) for _ in range(d)]
+    asint = rnd.random() < 0.15          # whole-number parameters handed over with an integer dtype
+    if asint:
+        mu = [float(round(m)) for m in mu]
+    imu = (lambda v: numpy.array(v).astype(int).reshape(-1, 1)) if asint else col
     if k == "uniform":
         blo = [dy(rnd, -4, -1) for _ in range(d)]
         bhi = [dy(rnd, 1, 4) for _ in range(d)]
-        obj = D.Uniform(col(blo), col(bhi))
+        if asint:
+            blo, bhi = [float(math.floor(v)) for v in blo], [float(math.ceil(v)) for v in bhi]
+        obj = D.Uniform(imu(blo), imu(bhi))
         return Node(obj, f"(uniform {d})", d, blo, bhi, f"Uniform({blo},{bhi})")
     if k == "laplace":
         b = [pos(rnd) for _ in range(d)]
-        obj = D.Laplace(col(mu), col(b), **kw)
+        obj = D.Laplace(imu(mu), col(b), **kw)
         if normalizable:
             obj.normalize()
         c = float(obj.normalization_constant)
@@ -98,7 +104,7 @@ def leaf(rnd, d, D, allow=("normal_scalar", "normal_vec", "normal_full", "laplac
         return Node(obj, f"(laplace {ql(mu)} {ql(ib.flatten())} {q(c)})", d, lo, hi, f"Laplace({mu},{b})", kinks=[[m] for m in mu])
     if k == "normal_scalar":
         var = pos(rnd)
-        obj = D.Normal(col(mu), float(var), **kw)
+        obj = D.Normal(imu(mu), float(var), **kw)
         if normalizable:
             obj.normalize()
         c = float(obj.normalization_constant)
@@ -106,7 +112,7 @@ def leaf(rnd, d, D, allow=("normal_scalar", "normal_vec", "normal_full", "laplac
         return Node(obj, f"(normal_diag {ql(mu)} {ql(iv)} {q(c)})", d, lo, hi, f"Normal({mu}, scalar {var})")
     if k == "normal_vec" or d == 1:
         var = [pos(rnd) for _ in range(d)]
-        obj = D.Normal(col(mu), col(var), **kw)
+        obj = D.Normal(imu(mu), col(var), **kw)
         if normalizable:
             obj.normalize()
         c = float(obj.normalization_constant)
@@ -114,7 +120,7 @@ def leaf(rnd, d, D, allow=("normal_scalar", "normal_vec", "normal_full", "laplac
         return Node(obj, f"(normal_diag {ql(mu)} {ql(iv)} {q(c)})", d, lo, hi, f"Normal({mu}, diag {var})")
     a = numpy.array([[dy(rnd, -1, 1) for _ in range(d)] for _ in range(d)])
     cov = a @ a.T + numpy.diag([pos(rnd) for _ in range(d)])
-    obj = D.Normal(col(mu), cov.copy(), **kw)
+    obj = D.Normal(imu(mu), cov.copy(), **kw)
     if normalizable:
         obj.normalize()
     c = float(obj.normalization_constant)
